@@ -48,7 +48,7 @@ def check(ctx):
                 # generator: the local `generator`, initialised from chkpt.generator(), advanced only
                 # by the kernel (and discard() in the MPI drivers)
                 gen = args[-1]
-                gu = ls.updates.get('generator')
+                gu = upd_by_pre(ls, gen)
                 ok = gu is not None and gen == gu['pre'] and isinstance(gu['init'], tuple) and \
                     gu['init'][0] == 'hcall' and gu['init'][1] == 'hep::chkpt_with_rng::generator'
                 if ok:
@@ -96,8 +96,7 @@ def check(ctx):
                                           'run would sample with a different state',
                                           {'state': T.pretty(st)[:300]})
                     else:
-                        var = STATE_VAR[name]
-                        su = ls.updates.get(var)
+                        su = upd_by_pre(ls, st)
                         ok = su is not None and st == su['pre'] and isinstance(su['init'], tuple) and \
                             su['init'][0] == 'hcall' and su['init'][1] == getter
                         if ok:
